@@ -19,9 +19,21 @@ Monitors
             HFP: after the SLC, commands the AG must refuse (unknown command, operation / index / indicator
             out of every range) raise at the HF, leave no pending command or queued result code behind,
             and the command after an error final code gets its own answer
+  srefuse   the refusal clause against a SCRIPTED responder (raw vlib.ref_rfcomm frames over a real L2CAP channel on PSM 3)
+            that refuses at every stage a real stack may: PN answered DM (at once / after 20 s), PN accepted and the SABM
+            answered DM / DISC / DM after 20 s / UA after 20 s, UA followed at once by DISC; first operation, with live
+            DLCs, twice in a row, after a close.  open_dlc() ends, a refused one with an error; the initiator's
+            multiplexer is CONNECTED and its DLC table equals the responder's OWN ledger of open DLCIs; open_dlc to
+            another channel and to the refused channel (now accepted) works and carries data both ways byte-exactly with
+            tx_credits equal to the responder's grant ledger; closes from either end; orderly ending
   slc       HfProtocol.initiate_slc against AgProtocol over such a DLC for enumerated and random
             feature / indicator / codec / call-hold configurations: completes, and both ends
             hold what the configurations imply (computed here, not by bumble)
+  slcrep    the SLC set-up REPEATED on the same HfProtocol / AgProtocol: the k-th command of the procedure (every k) or the
+            whole answer to it is lost once, the HF times out, initiate_slc() is run again (and again after a completed
+            one): it completes and the slc oracle holds again (indicator names / order / count / values against a
+            ledger kept here, feature words, call hold list, HF indicators, codecs), +CIEV updates sent through
+            AgProtocol.update_ag_indicator afterwards land on the indicator they name on both sides
   codec     codec connection set-up after the SLC with one side played by hand (scripted AG against HfProtocol with its
             run loop, scripted HF against AgProtocol) and back to back with a gateway application that refuses: the
             selection +BCS is confirmed and answered OK / ERROR / +CME ERROR / not at all / ERROR after the HF's
@@ -54,7 +66,11 @@ RULE = ('seeded cases; RFCOMM transfer cases over (N1 and initial credits per si
         'refusal cases enumerate 11 written scripts + seeded random ones (open_dlc to a channel nobody listens on = DM, '
         'several in a row, between live DLCs and closes, a second open_dlc while one is in flight, disconnect() of a '
         'closed DLC, a service that appears after its refusal) x 3 endings (Client.shutdown, Multiplexer.disconnect, '
-        'shutdown + second multiplexer on the same ACL) and are distinct by (script, ending, steps); '
+        'shutdown + second multiplexer on the same ACL) and are distinct by (script, ending, steps); scripted-responder '
+        'refusal cases enumerate 7 answers (DM / late DM for the PN; DM / DISC / late DM / late UA for the SABM; UA then DISC) '
+        'x 4 contexts x 3 follow-ups and are distinct by that tuple + ending; repeated-SLC cases enumerate (lost command k of '
+        'the procedure or none, command lost / answer lost, re-run after a completed SLC) and are distinct by that and the '
+        'configuration pair; '
         'SLC cases enumerate all 64 settings of the six feature bits the procedure branches on, the other bits and '
         'the lists drawn from boundary sets, distinct by configuration pair; AT cases are distinct by command line')
 ASSUMPTIONS = [
@@ -63,6 +79,11 @@ ASSUMPTIONS = [
     'sinks are attached as soon as a DLC exists, so the 32-packet pre-sink queue is not part of the stream clause',
     'AG configurations list at least one AG indicator (an AG without indicators may refuse AT+CIND)',
     'a line that is not an AT command at all need not be answered, but must not stop later commands being answered',
+    'a responder that never answers a PN or SABM at all is not exercised (the statement gives open_dlc() no time-out); answers '
+    'that come 20 virtual seconds late are',
+    'after DISC on DLCI 0 only the multiplexer states are compared (both bumble ends keep their DLC tables)',
+    'a set-up that is run again meets the same gateway object with the same configuration; its indicator values may have '
+    'been changed through AgProtocol.update_ag_indicator in between',
     'codec connection set-up (HFP 4.11.3): the codec connection exists once the AG has answered the HF\'s AT+BCS=<id> with OK; '
     'a side whose confirmation was refused, never answered, or answered after its own time-out keeps the codec it had; an '
     'application that gave up on negotiate_codec() (task cancelled) may call it again',
@@ -77,6 +98,11 @@ MIN_EVENTS = {
               'refuse_state_checks': 1200, 'refuse_exchanges': 400, 'mux_disc_frames_on_wire': 200,
               'hf_commands_after_refusal': 800, 'hf_concurrent_command_groups': 150,
               'sink_installed_after_data_and_replaced': 100,
+              'srefuse_refusals': 100, 'srefuse_refusals_after_accepted_pn': 60, 'srefuse_refusals_at_pn': 40,
+              'srefuse_late_acceptances': 20, 'srefuse_ua_then_disc': 20, 'srefuse_state_checks': 550,
+              'srefuse_opens_after_scripted_answer': 150, 'srefuse_exchanges': 400,
+              'slcrep_runs': 120, 'slcrep_retries_after_failed_attempt': 100, 'slcrep_reruns_after_completed_slc': 70,
+              'slcrep_agreement_checks': 1800, 'slcrep_ciev_updates': 450,
               'codec_steps': 400, 'codec_agreement_checks': 350, 'codec_real_hf_confirmation_refused': 60,
               'codec_real_hf_confirmation_unanswered': 25, 'codec_real_hf_confirmation_answered_ok': 120,
               'codec_bac_renegotiations': 35, 'codec_hf_bcc': 50, 'codec_bcs_unanswered_by_hf': 6, 'codec_negotiate_codec_calls_after_abandoned_one': 30,
@@ -89,6 +115,11 @@ MIN_EVENTS = {
                  'refuse_state_checks': 6000, 'refuse_exchanges': 2000, 'mux_disc_frames_on_wire': 1000,
                  'hf_commands_after_refusal': 3500, 'hf_concurrent_command_groups': 700,
                  'sink_installed_after_data_and_replaced': 500,
+                 'srefuse_refusals': 500, 'srefuse_refusals_after_accepted_pn': 300, 'srefuse_refusals_at_pn': 200,
+                 'srefuse_late_acceptances': 100, 'srefuse_ua_then_disc': 100, 'srefuse_state_checks': 2700,
+                 'srefuse_opens_after_scripted_answer': 750, 'srefuse_exchanges': 2000,
+                 'slcrep_runs': 600, 'slcrep_retries_after_failed_attempt': 500, 'slcrep_reruns_after_completed_slc': 350,
+                 'slcrep_agreement_checks': 9000, 'slcrep_ciev_updates': 2200,
                  'codec_steps': 3200, 'codec_agreement_checks': 2800, 'codec_real_hf_confirmation_refused': 480,
                  'codec_real_hf_confirmation_unanswered': 200, 'codec_real_hf_confirmation_answered_ok': 1000,
                  'codec_bac_renegotiations': 280, 'codec_hf_bcc': 400, 'codec_bcs_unanswered_by_hf': 50, 'codec_negotiate_codec_calls_after_abandoned_one': 240,
@@ -139,8 +170,12 @@ def plan(tier, seed):
         cases.append({'kind': 'life', 'seed': base + i, 'idx': i, 'tier': tier})
     for i in range(324 if q else 1620):
         cases.append({'kind': 'refuse', 'seed': base + i, 'idx': i, 'tier': tier})
+    for i in range(168 if q else 840):
+        cases.append({'kind': 'srefuse', 'seed': base + i, 'idx': i, 'tier': tier})
     for i in range(576 if q else 2560):
         cases.append({'kind': 'slc', 'seed': base + i, 'idx': i, 'tier': tier})
+    for i in range(180 if q else 900):
+        cases.append({'kind': 'slcrep', 'seed': base + i, 'idx': i, 'tier': tier})
     for i in range(192 if q else 800):
         cases.append({'kind': 'agraw', 'seed': base + i, 'idx': i, 'tier': tier})
     for i in range(16 if q else 200):
@@ -969,6 +1004,430 @@ async def refuse(case, r: R):
 
 
 # =============================================================================
+# kind 'srefuse': the `refuse` family against a SCRIPTED responder (raw RFCOMM frames over a real L2CAP channel)
+# =============================================================================
+# A bumble Server refuses only at the PN stage (DM for a channel nobody listens on).  A real stack may refuse at every
+# stage (TS 07.10 5.4.1 / RFCOMM 5.2: DM is the answer of a station that is not willing to establish the DLC): the PN
+# answered with DM, the PN accepted and the SABM answered with DM or with DISC, either of them after a pause, or the
+# UA followed at once by DISC.  The responder below is played by hand with vlib.ref_rfcomm frames and keeps its OWN
+# ledger of which DLCIs are open (UA sent for the SABM, no DISC either way since), what it received and which credits
+# it granted; the initiator's DLC table, states, streams and credit counter are judged against that ledger.
+# ('nothing at all' is not in the list: the statement gives open_dlc() no time-out, so only answers that come are judged.)
+SREFUSE_SCRIPTS = [
+    ('pn-dm', 'dm', None),
+    ('sabm-dm', 'accept', 'dm'),
+    ('sabm-disc', 'accept', 'disc'),
+    ('pn-late-dm', 'late-dm', None),
+    ('sabm-late-dm', 'accept', 'late-dm'),
+    ('sabm-late-ua', 'accept', 'late-ua'),
+    ('ua-then-disc', 'accept', 'ua-disc'),
+]
+SREFUSE_CONTEXTS = ['first-operation', 'with-live-dlcs', 'twice-in-a-row', 'after-a-close']
+SREFUSE_FOLLOWUPS = ['open-other-channel', 'reopen-refused-channel', 'both']
+SREFUSE_STAGE = {'pn-dm': 'dm-for-pn', 'pn-late-dm': 'dm-for-pn', 'sabm-dm': 'dm-for-sabm', 'sabm-late-dm': 'dm-for-sabm',
+                 'sabm-disc': 'disc-for-sabm', 'ua-then-disc': 'disc-after-ua', 'sabm-late-ua': 'late-ua'}
+SREFUSE_ENDS_REFUSED = {'pn-dm', 'sabm-dm', 'sabm-disc', 'pn-late-dm', 'sabm-late-dm'}
+
+
+class ScriptedResponder:
+    def __init__(self, channel, my_n1, my_k, r: R):
+        self.ch = channel
+        self.my_n1, self.my_k = my_n1, my_k
+        self.r = r
+        self.mux = 'INIT'
+        self.plan = {}            # dlci -> (pn answer, sabm answer), consumed by the next PN command for that DLCI
+        self.stage = {}           # dlci -> sabm answer still to play
+        self.pn = {}              # dlci -> PN command of the initiator that was accepted
+        self.open = {}            # dlci -> ledger of an open data link
+        self.closed = []          # ledgers of data links that were closed
+        self.seen = []            # (type name, dlci) of every frame of the initiator
+        self.bad_frames = 0
+        channel.sink = self.on_pdu
+
+    # -- sending ------------------------------------------------------------------------------------
+    def send(self, ftype, cr, dlci, pf, payload=b'', credit=None):
+        self.ch.write(rr.make_frame(ftype, cr, dlci, pf, payload, credit))
+
+    def later(self, delay, fn):
+        asyncio.get_running_loop().call_later(delay, fn)
+
+    def establish(self, dlci):
+        pn = self.pn[dlci]
+        self.open[dlci] = {'rx': bytearray(), 'credits': pn.k, 'peer_n1': pn.n1, 'txq': bytearray(), 'granted': self.my_k,
+                           'data_frames_received': 0, 'data_frames_sent': 0, 'oversize': 0}
+        self.send(rr.UA, 1, dlci, 1)
+        self.send(rr.UIH, 0, 0, 0, rr.make_mcc(rr.MCC_MSC, 1, bytes([(dlci << 2) | 3, 0x8D])))
+
+    def close(self, dlci):
+        """the responder closes the data link: DISC command, the link leaves its ledger now"""
+        if dlci in self.open:
+            self.closed.append(self.open.pop(dlci))
+        self.send(rr.DISC, 0, dlci, 1)
+
+    def write(self, dlci, data):
+        st = self.open[dlci]
+        st['txq'] += data
+        self.flush(dlci)
+
+    def flush(self, dlci):
+        st = self.open.get(dlci)
+        if st is None:
+            return
+        limit = max(1, min(st['peer_n1'], self.ch.peer_mtu - 5))
+        while st['txq'] and st['credits'] > 0:
+            chunk = bytes(st['txq'][:limit])
+            del st['txq'][:limit]
+            st['credits'] -= 1
+            st['data_frames_sent'] += 1
+            self.send(rr.UIH, 0, dlci, 0, chunk)
+
+    # -- receiving ----------------------------------------------------------------------------------
+    def on_pdu(self, pdu):
+        f = rr.parse_frame(bytes(pdu))
+        if f is None or f.problems or not f.fcs_ok:
+            self.bad_frames += 1
+            return
+        self.seen.append((f.name, f.dlci))
+        if f.dlci == 0:
+            if f.type == rr.SABM:
+                self.mux = 'CONNECTED'
+                self.send(rr.UA, 1, 0, 1)
+            elif f.type == rr.DISC:
+                self.mux = 'DISCONNECTED'
+                self.closed.extend(self.open.values())
+                self.open.clear()
+                self.send(rr.UA, 1, 0, 1)
+            elif f.type == rr.UIH:
+                m = rr.parse_mcc(f.payload)
+                if m is None:
+                    return
+                if m.type == rr.MCC_PN and m.cr:
+                    pn = rr.parse_pn(m.value)
+                    if pn is not None:
+                        self.on_pn(pn)
+                elif m.type == rr.MCC_MSC and m.cr:
+                    self.send(rr.UIH, 0, 0, 0, rr.make_mcc(rr.MCC_MSC, 0, m.value))
+            return
+        d = f.dlci
+        if f.type == rr.SABM:
+            self.on_sabm(d)
+        elif f.type == rr.DISC:
+            if d in self.open:
+                self.closed.append(self.open.pop(d))
+                self.send(rr.UA, 1, d, 1)
+            else:
+                self.send(rr.DM, 1, d, 1)
+        elif f.type == rr.UIH:
+            st = self.open.get(d)
+            if st is None:
+                self.r.ev('srefuse_data_frames_on_a_dlci_the_responder_holds_closed')
+                return
+            if f.credit is not None:
+                st['credits'] += f.credit
+            if f.payload:
+                st['rx'] += f.payload
+                st['data_frames_received'] += 1
+                if len(f.payload) > self.my_n1 - (1 if f.credit is not None else 0):
+                    st['oversize'] += 1
+                st['granted'] += 1
+                self.send(rr.UIH, 0, d, 1, b'', credit=1)
+            self.flush(d)
+
+    def on_pn(self, pn):
+        d = pn.dlci
+        pn_answer, sabm_answer = self.plan.pop(d, ('accept', 'ua'))
+
+        def accept():
+            self.pn[d] = pn
+            self.stage[d] = sabm_answer
+            self.send(rr.UIH, 0, 0, 0, rr.make_mcc(rr.MCC_PN, 0, rr.make_pn(d, min(pn.n1, self.my_n1), self.my_k,
+                                                                                priority=pn.priority)))
+        if pn_answer == 'accept':
+            accept()
+        elif pn_answer == 'dm':
+            self.send(rr.DM, 1, d, 1)
+        elif pn_answer == 'late-dm':
+            self.later(20.0, lambda: self.send(rr.DM, 1, d, 1))
+
+    def on_sabm(self, d):
+        step = self.stage.pop(d, None)
+        if d not in self.pn or step is None or d in self.open:
+            self.send(rr.DM, 1, d, 1)
+            return
+        if step == 'ua':
+            self.establish(d)
+        elif step == 'dm':
+            del self.pn[d]
+            self.send(rr.DM, 1, d, 1)
+        elif step == 'disc':
+            del self.pn[d]
+            self.send(rr.DISC, 0, d, 1)
+        elif step == 'late-dm':
+            del self.pn[d]
+            self.later(20.0, lambda: self.send(rr.DM, 1, d, 1))
+        elif step == 'late-ua':
+            self.later(20.0, lambda: self.establish(d))
+        elif step == 'ua-disc':
+            self.establish(d)
+            self.close(d)
+
+
+async def srefuse(case, r: R):
+    from bumble import l2cap
+    rng = random.Random(case['seed'] ^ 0x5EF)
+    idx = case['idx']
+    name, pn_answer, sabm_answer = SREFUSE_SCRIPTS[idx % len(SREFUSE_SCRIPTS)]
+    context = SREFUSE_CONTEXTS[(idx // len(SREFUSE_SCRIPTS)) % len(SREFUSE_CONTEXTS)]
+    followup = SREFUSE_FOLLOWUPS[(idx // (len(SREFUSE_SCRIPTS) * len(SREFUSE_CONTEXTS))) % len(SREFUSE_FOLLOWUPS)]
+    ending = rng.choice(['shutdown', 'mux-disconnect'])
+    rg, ca, cb, geo = await make_rig(case, rng)
+    cm, sm = rng.choice(L2_MTUS), rng.choice(L2_MTUS)
+    my_n1, my_k = rng.choice(FRAME_SIZES), rng.randint(1, 7)
+    responders = []
+    rg.devices[1].create_l2cap_server(spec=l2cap.ClassicChannelSpec(psm=rr.RFCOMM_PSM, mtu=sm),
+                                      handler=lambda ch: responders.append(ScriptedResponder(ch, my_n1, my_k, r)))
+    from bumble import rfcomm
+    client = rfcomm.Client(ca, l2cap_mtu=cm)
+    detail = lambda: (f'scripted responder: {name} (PN answered {pn_answer}, SABM answered {sabm_answer}), {context}, then '      # noqa: E731
+                      f'{followup}, ending {ending}; responder N1={my_n1} k={my_k}, L2CAP MTUs {cm}/{sm}; frames the responder '
+                      f'saw: {resp.seen[-12:] if responders else None}')
+    try:
+        how, mux = await vloop.vwait(guarded(client.start()))
+    except vloop.Hang:
+        r.bad('rfcomm/setup/multiplexer-connect-hang/scripted-responder', f'Client.start pending at T_v; mtus {cm}/{sm}')
+        return
+    if how != 'ok' or not responders:
+        r.bad('rfcomm/setup/multiplexer-connect-raised/scripted-responder', f'Client.start -> {how} {mux!r}; mtus {cm}/{sm}')
+        return
+    resp = responders[0]
+    await rg.quiesce()
+    chans = rng.sample(range(1, 31), 5)
+    refused_ch, other_ch, live_ch, second_ch, closed_ch = chans
+    sinks = {}                # DLCI -> bytearray of the initiator's DLC
+    live = {}                 # DLCI -> initiator DLC the model holds open
+    stale_reported = set()
+    refused_dlcis = set()
+    r.ev(f'srefuse_script_{name}')
+    r.ev(f'srefuse_context_{context}')
+
+    async def try_open(ch):
+        n1, k = rng.choice(FRAME_SIZES), rng.randint(1, 7)
+        try:
+            how, val = await vloop.vwait(guarded(mux.open_dlc(ch, max_frame_size=n1, initial_credits=k)))
+        except vloop.Hang:
+            return 'hang', None
+        await rg.quiesce()
+        if how == 'ok':
+            buf = bytearray()
+            sinks[val.dlci] = buf
+            val.sink = buf.extend
+        return how, val
+
+    def judge(after, suffix, tables=True):
+        """the initiator against the responder's own ledger"""
+        r.ev('srefuse_state_checks')
+        r.ev('state_checks')
+        r.ev('oracle_evals', 3)
+        tab = table(mux)
+        conn = {d for d, st in tab.items() if st == 'CONNECTED'}
+        ok = True
+        if not tables:
+            # (after DISC on DLCI 0 only the multiplexer states are compared, as between two bumble ends)
+            pass
+        elif conn != set(resp.open):
+            ok = False
+            r.bad(f'state/open-set-differs-from-responder/{suffix}',
+                  f'after {after}: the initiator lists {tab}, the responder holds DLCIs {sorted(resp.open)} open; {detail()}')
+        elif set(tab) - set(resp.open) - stale_reported:
+            ok = False
+            for d in sorted(set(tab) - set(resp.open) - stale_reported):
+                stale_reported.add(d)      # one report per left-over entry, under the step that left it
+                where = f'refused-open/{SREFUSE_STAGE[name]}' if d in refused_dlcis else suffix
+                r.bad(f'state/dlci-not-open-at-responder-in-table/scripted-responder/{where}',
+                      f'after {after}: the initiator still lists DLCI {d} ({tab}), the responder holds only '
+                      f'{sorted(resp.open)} open; {detail()}')
+        want = 'CONNECTED' if resp.mux == 'CONNECTED' else 'DISCONNECTED'
+        if mux.state.name != want:
+            ok = False
+            r.bad(f'state/multiplexer-not-{want.lower()}/{suffix}/initiator',
+                  f'after {after} the initiator multiplexer is {mux.state.name}, the responder\'s is {resp.mux}; {detail()}')
+        return ok
+
+    async def exchange(suffix):
+        for d in sorted(live):
+            if d not in resp.open:
+                continue
+            cd, st = live[d], resp.open[d]
+            n = rng.choice([1, 30, 700, 3000])
+            a, b = make_data(d + 1, len(st['rx']), n), make_data(d + 101, len(sinks[d]), n)
+            s0, c0 = len(st['rx']), len(sinks[d])
+            cd.write(a)
+            resp.write(d, b)
+
+            async def w():
+                while len(st['rx']) < s0 + n or len(sinks[d]) < c0 + n:
+                    await asyncio.sleep(0.01)
+            r.ev('stream_checks', 2)
+            r.ev('srefuse_exchanges')
+            r.ev('oracle_evals', 3)
+            try:
+                await vloop.vwait(w(), 60)
+            except vloop.Hang:
+                r.bad(f'rfcomm/progress/stalled/{suffix}',
+                      f'{n} octets each way on DLCI {d}: {len(st["rx"]) - s0} reached the responder, {len(sinks[d]) - c0} the '
+                      f'initiator (initiator tx_credits={cd.tx_credits}, responder credits={st["credits"]}); {detail()}')
+                continue
+            await rg.quiesce()
+            if bytes(st['rx'][s0:]) != a or bytes(sinks[d][c0:]) != b:
+                r.bad(f'rfcomm/stream/corrupt/{suffix}', f'exchange of {n} octets each way on DLCI {d} differs; {detail()}')
+            if st['oversize']:
+                r.bad(f'rfcomm/size/exceeds-peer-n1/{suffix}', f'{st["oversize"]} data frames above the responder\'s N1={my_n1}')
+            ledger = st['granted'] - st['data_frames_received']
+            if cd.tx_credits != ledger:
+                r.bad('rfcomm/credit/counter-drift/opener/scripted-responder',
+                      f'DLCI {d}: tx_credits={cd.tx_credits}, the responder granted {st["granted"]} (k={my_k} in its PN) and '
+                      f'received {st["data_frames_received"]} data frames; {detail()}')
+
+    async def open_accepted(ch, suffix):
+        """open_dlc to a channel the responder accepts: must return a DLC the responder holds open too"""
+        how, val = await try_open(ch)
+        r.ev('oracle_evals')
+        if how == 'hang':
+            r.bad(f'rfcomm/setup/open-dlc-hang/{suffix}', f'open_dlc({ch}) to an accepting channel pending at T_v; {detail()}')
+            return False
+        if how == 'raised':
+            r.bad(f'rfcomm/setup/open-dlc-raised/{suffix}',
+                  f'open_dlc({ch}) to an accepting channel raised {type(val).__name__}: {val}; initiator multiplexer '
+                  f'{mux.state.name}, DLCs {table(mux)}; {detail()}')
+            return None
+        live[val.dlci] = val
+        return True
+
+    async def close(d, by, suffix):
+        cd = live.pop(d)
+        if by == 'initiator':
+            try:
+                how, val = await vloop.vwait(guarded(cd.disconnect()))
+            except vloop.Hang:
+                r.bad(f'rfcomm/teardown/dlc-disconnect-hang/by-initiator/{suffix}', f'DLC.disconnect pending at T_v (DLCI {d}); {detail()}')
+                return False
+            if how == 'raised':
+                r.bad(f'rfcomm/teardown/dlc-disconnect-raised/by-initiator/{suffix}', f'{type(val).__name__}: {val}; {detail()}')
+        else:
+            resp.close(d)
+        await rg.quiesce()
+        return True
+
+    # ---- what happened before the refusal ---------------------------------------------------------
+    if context in ('with-live-dlcs', 'after-a-close'):
+        if await open_accepted(live_ch, f'scripted-responder/before-any-refusal') is not True:
+            r.evals()
+            return
+        judge(f'opening channel {live_ch}', 'scripted-responder/before-any-refusal')
+        await exchange('scripted-responder/before-any-refusal')
+    if context == 'after-a-close':
+        if await open_accepted(closed_ch, 'scripted-responder/before-any-refusal') is not True:
+            r.evals()
+            return
+        by = rng.choice(['initiator', 'responder'])
+        if not await close(closed_ch << 1, by, 'scripted-responder/before-any-refusal'):
+            r.evals()
+            return
+        r.ev(f'srefuse_closes_by_{by}')
+        judge(f'channel {closed_ch} closed by the {by}', f'scripted-responder/after-dlc-close/by-{by}/before-any-refusal')
+    # ---- the refusal(s) ---------------------------------------------------------------------------
+    rounds = [refused_ch] + ([second_ch] if context == 'twice-in-a-row' else [])
+    for n_round, ch in enumerate(rounds):
+        resp.plan[ch << 1] = (pn_answer, sabm_answer)
+        if name != 'sabm-late-ua':
+            refused_dlcis.add(ch << 1)
+        how, val = await try_open(ch)
+        r.ev('srefuse_scripted_answers')
+        r.ev('oracle_evals', 2)
+        if how == 'hang':
+            r.bad(f'rfcomm/refusal/open-dlc-hang/scripted-responder/{name}',
+                  f'open_dlc({ch}) still pending at T_v although the responder answered; initiator multiplexer '
+                  f'{mux.state.name}, DLCs {table(mux)}; {detail()}')
+            r.evals()
+            return
+        r.ev(f'srefuse_outcome_{how}')
+        if name in SREFUSE_ENDS_REFUSED:
+            r.ev('srefuse_refusals')
+            r.ev('srefuse_refusals_after_accepted_pn' if pn_answer == 'accept' else 'srefuse_refusals_at_pn')
+            if how == 'ok':
+                r.bad(f'rfcomm/refusal/open-succeeded-although-refused/scripted-responder/{name}',
+                      f'open_dlc({ch}) returned {val}; {detail()}')
+            else:
+                r.ev(f'refusal_raised_{type(val).__name__}')
+        elif name == 'sabm-late-ua':
+            r.ev('srefuse_late_acceptances')
+            if how != 'ok':
+                r.bad(f'rfcomm/setup/open-dlc-raised/scripted-responder/{name}',
+                      f'open_dlc({ch}) answered UA after 20 s raised {type(val).__name__}: {val}; {detail()}')
+            else:
+                live[val.dlci] = val
+        else:
+            # UA, then DISC at once: a returned DLC or an error are both an end; the link is closed at the responder
+            r.ev('srefuse_ua_then_disc')
+        judge(f'open_dlc({ch}) -> {how} ({val!r})', f'scripted-responder/{name}')
+        await exchange(f'scripted-responder/after-{name}')
+    # ---- the multiplexer is still usable ------------------------------------------------------------
+    opened = 0
+    targets = {'open-other-channel': [other_ch], 'reopen-refused-channel': [refused_ch], 'both': [other_ch, refused_ch]}[followup]
+    for ch in targets:
+        if (ch << 1) in live:
+            if not await close(ch << 1, 'initiator', f'scripted-responder/after-{name}'):
+                break
+            judge(f'closing channel {ch}', f'scripted-responder/after-dlc-close/by-initiator/after-{name}')
+        kind = 'reopen-refused-channel' if ch == refused_ch else 'open-other-channel'
+        refused_dlcis.discard(ch << 1)
+        stale_reported.discard(ch << 1)
+        res = await open_accepted(ch, f'scripted-responder/{kind}/after-{name}')
+        r.ev('srefuse_opens_after_scripted_answer')
+        if res is False:
+            r.evals()
+            return
+        if res:
+            opened += 1
+        judge(f'open_dlc({ch}) after the scripted answer', f'scripted-responder/{kind}/after-{name}')
+        await exchange(f'scripted-responder/{kind}/after-{name}')
+    if live and rng.random() < 0.7:
+        d = rng.choice(sorted(live))
+        by = rng.choice(['initiator', 'responder'])
+        r.ev(f'srefuse_closes_by_{by}')
+        if await close(d, by, f'scripted-responder/after-{name}'):
+            judge(f'DLCI {d} closed by the {by}', f'scripted-responder/after-dlc-close/by-{by}/after-{name}')
+            await exchange(f'scripted-responder/after-dlc-close/by-{by}/after-{name}')
+    # the initiator's frames against the wire oracle (FCS, sizes, credit ledger from the scripted PN)
+    view = rr.analyze(rg.boundary_log, 0, r)
+    if len(view.channels) != 1:
+        r.bad('harness/rfcomm-channel-not-found', f'dev0: RFCOMM L2CAP channels seen on the wire: {view.channels}')
+    if resp.bad_frames:
+        r.bad('rfcomm/frame/malformed/scripted-responder', f'{resp.bad_frames} frames of the initiator did not parse; {detail()}')
+    # ---- ending -------------------------------------------------------------------------------------
+    r.ev('oracle_evals')
+    try:
+        how, val = await vloop.vwait(guarded(mux.disconnect() if ending == 'mux-disconnect' else client.shutdown()))
+        if how == 'raised':
+            r.bad(f'rfcomm/teardown/{ending}-raised/scripted-responder/after-{name}', f'{type(val).__name__}: {val}; {detail()}')
+        await rg.quiesce()
+        judge(ending, f'scripted-responder/after-{ending}/after-{name}', tables=False)
+        if ending == 'mux-disconnect':
+            await vloop.vwait(guarded(client.shutdown()))
+            await rg.quiesce()
+    except vloop.Hang:
+        r.bad(f'rfcomm/teardown/{ending}-hang/scripted-responder/after-{name}', f'{ending} pending at T_v; {detail()}')
+    for where, e in rg.exceptions:
+        r.bad('rfcomm/exception-in-stack/scripted-responder', f'{where}: {e}; {detail()}')
+    r.sig('srefuse', name, context, followup, ending)
+    r.sched.add(rg.schedule_signature)
+    r.evals()
+    r.sample = {'kind': 'srefuse', 'script': name, 'pn_answer': pn_answer, 'sabm_answer': sabm_answer, 'context': context,
+                'followup': followup, 'ending': ending, 'responder_n1_k': [my_n1, my_k], 'frames_seen_by_responder': len(resp.seen),
+                'opened_after': opened, **geo}
+
+
+# =============================================================================
 # HFP: tables written down from the Hands-Free Profile (not taken from bumble.hfp)
 # =============================================================================
 HF_BITS = {'EC_NR': 0x001, 'THREE_WAY': 0x002, 'CLI': 0x004, 'VR': 0x008, 'VOLUME': 0x010, 'ECS': 0x020, 'ECC': 0x040,
@@ -1314,6 +1773,222 @@ async def slc(case, r: R):
     r.evals()
     r.sample = {'kind': 'slc', 'cfg': cfg, 'link': info, 'outcome': outcome[:80],
                 'at': [(g[0], g[1]) for g in mon.groups()][:4]}
+
+
+# =============================================================================
+# kind 'slcrep': the SLC set-up REPEATED on the same HfProtocol / AgProtocol objects
+# =============================================================================
+# An application retries a set-up that failed (HfProtocol.run() does: it calls initiate_slc() again as long as the SLC
+# is not initialised), and it may run it again after a completed one.  For every k, the k-th command of the procedure is
+# lost once (the command never reaches the gateway, or the gateway's whole answer to it is lost) so that the first
+# attempt ends in the HF's time-out after k-1 completed steps; the next attempt on the SAME objects must complete with
+# both sides holding what the configurations imply - the indicator list with its names, order, count and values, feature
+# words, call-hold list, HF indicators - exactly as after a first set-up, and +CIEV updates the gateway sends through its
+# API afterwards must land on the indicator they name.
+def slc_sequence(cfg):
+    """The commands of HFP 4.2.1 for this pair of configurations (written here from the profile)."""
+    both = lambda n: n in cfg['hf_features'] and n in cfg['ag_features']      # noqa: E731
+    return (['AT+BRSF='] + (['AT+BAC='] if both('CODEC') else []) + ['AT+CIND=?', 'AT+CIND?', 'AT+CMER='] +
+            (['AT+CHLD=?'] if both('THREE_WAY') else []) + (['AT+BIND=', 'AT+BIND=?', 'AT+BIND?'] if both('HF_IND') else []))
+
+
+def slc_agreement(r: R, cfg, hf, ag, cur, suffix, detail):
+    """Both ends against the configurations (the oracle of the 'slc' kind) with the indicator values of the ledger `cur`;
+    every key carries `suffix`."""
+    exp_hf = sum(HF_BITS[n] for n in cfg['hf_features'])
+    exp_ag = sum(AG_BITS[n] for n in cfg['ag_features'])
+    both = lambda n: n in cfg['hf_features'] and n in cfg['ag_features']      # noqa: E731
+
+    def agree(cond, key, text):
+        r.ev('slc_agreement_checks')
+        r.ev('slcrep_agreement_checks')
+        r.ev('oracle_evals')
+        if not cond:
+            r.bad(key + suffix, f'{text}; {detail}')
+    agree(hf.supported_ag_features == exp_ag and ag.supported_ag_features == exp_ag, 'slc/disagree/ag-features',
+          f'AG feature word: configured {exp_ag:#x}, AG {ag.supported_ag_features:#x}, HF learnt {hf.supported_ag_features:#x}')
+    agree(hf.supported_hf_features == exp_hf and ag.supported_hf_features == exp_hf, 'slc/disagree/hf-features',
+          f'HF feature word: configured {exp_hf:#x}, HF {hf.supported_hf_features:#x}, AG learnt {ag.supported_hf_features:#x}')
+    names = [n for n, _v, _c in cfg['ag_indicators']]
+    hf_names = [x.indicator.value for x in hf.ag_indicators]
+    agree(hf_names == names and [x.indicator.value for x in ag.ag_indicators] == names, 'slc/disagree/ag-indicator-list',
+          f'AG indicators configured {names} ({len(names)}), HF holds {hf_names} ({len(hf_names)})')
+    if hf_names == names:
+        agree([x.current_status for x in hf.ag_indicators] == cur and [x.current_status for x in ag.ag_indicators] == cur,
+              'slc/disagree/ag-indicator-values',
+              f'AG indicator values by the ledger {cur}, AG holds {[x.current_status for x in ag.ag_indicators]}, HF holds '
+              f'{[x.current_status for x in hf.ag_indicators]}')
+        sv = [set(v) for _n, v, _c in cfg['ag_indicators']]
+        hsv = [x.supported_values for x in hf.ag_indicators]
+        agree(hsv == sv, 'slc/disagree/ag-indicator-supported-values', f'supported values announced {sv}, HF recorded {hsv}')
+    exp_ind = ([i for i in cfg['ag_hf_indicators'] if i in cfg['hf_indicators']] if both('HF_IND') else [])
+    ag_ind = sorted(int(i) for i in ag.hf_indicators)
+    hf_enabled = sorted(int(i) for i, st in hf.hf_indicators.items() if st.enabled)
+    agree(ag_ind == sorted(exp_ind) and hf_enabled == sorted(exp_ind), 'slc/disagree/hf-indicator-set',
+          f'HF indicators in force: expected {sorted(exp_ind)}, AG holds {ag_ind}, HF holds enabled {hf_enabled}')
+    agree(sorted(int(i) for i in hf.hf_indicators) == sorted(cfg['hf_indicators']), 'slc/disagree/hf-indicator-table',
+          f'the HF was configured with HF indicators {cfg["hf_indicators"]}, it holds {[int(i) for i in hf.hf_indicators]}')
+    if both('HF_IND'):
+        hf_sup = sorted(int(i) for i, st in hf.hf_indicators.items() if st.supported)
+        agree(hf_sup == sorted(exp_ind), 'slc/disagree/hf-indicator-supported',
+              f'HF indicators the AG supports among the HF ones: expected {sorted(exp_ind)}, HF marked {hf_sup}')
+    if both('CODEC'):
+        agree([int(c) for c in ag.supported_audio_codecs] == cfg['hf_codecs'], 'slc/disagree/codec-list',
+              f'HF codecs {cfg["hf_codecs"]}, AG learnt {[int(c) for c in ag.supported_audio_codecs]}')
+    exp_chld = cfg['chld'] if both('THREE_WAY') else []
+    agree([o.value for o in hf.supported_ag_call_hold_operations] == exp_chld, 'slc/disagree/call-hold',
+          f'call hold operations: expected {exp_chld}, HF learnt {[o.value for o in hf.supported_ag_call_hold_operations]}')
+
+
+async def slcrep(case, r: R):
+    from bumble import hfp
+    rng = random.Random(case['seed'] ^ 0x5C2)
+    idx = case['idx']
+    # the six branch bits: all on in two cases of three (the longest procedure), else walked
+    cfg = gen_hfp(rng, 63 if idx % 3 else (idx // 3) % 64)
+    seq = slc_sequence(cfg)
+    k = (idx // 3) % (len(seq) + 1) if idx % 3 else rng.randrange(len(seq) + 1)
+    how_lost = 'command-lost' if (idx // 2) % 2 else 'answer-lost'
+    first = 'completed-slc' if k == len(seq) else 'failed-attempt'
+    rg, s, cd, sd, info = await hfp_link(case, rng, r)
+    hf_conf, ag_conf = build_hfp_configs(cfg)
+    hf_on_client = rng.random() < 0.6
+    hf = hfp.HfProtocol(cd if hf_on_client else sd, hf_conf)
+    ag = hfp.AgProtocol(sd if hf_on_client else cd, ag_conf)
+    agd = ag.dlc
+    inner_sink, inner_write = agd.sink, agd.write
+    tap = {'n': 0, 'drop': k if k < len(seq) else None, 'swallow': False, 'dropped': None, 'buf': bytearray(), 'lines': []}
+
+    def sink(data):
+        tap['buf'] += data
+        while (i := tap['buf'].find(b'\r')) >= 0:
+            line = bytes(tap['buf'][:i + 1])
+            del tap['buf'][:i + 1]
+            n = tap['n']
+            tap['n'] += 1
+            tap['lines'].append(line.decode('utf-8', 'replace').strip())
+            if n == tap['drop']:
+                tap['dropped'] = tap['lines'][-1]
+                if how_lost == 'command-lost':
+                    continue
+                tap['swallow'] = True
+                try:
+                    inner_sink(line)
+                finally:
+                    tap['swallow'] = False
+                continue
+            inner_sink(line)
+
+    def write(data):
+        if tap['swallow']:
+            return
+        inner_write(data)
+
+    agd.sink = sink
+    agd.write = write
+    cur = [c for _n, _v, c in cfg['ag_indicators']]        # ledger of the indicator values, kept here
+    detail = lambda: (f'cfg={cfg} link={info} hf_on_client={hf_on_client}; first attempt: '      # noqa: E731
+                      f'{"completed" if k == len(seq) else how_lost + " at command #" + str(k + 1) + " " + repr(tap["dropped"])}'
+                      f'; command lines the AG side received: {tap["lines"]}')
+    r.ev('slcrep_runs')
+    r.ev('slc_runs')
+
+    async def attempt(label, suffix):
+        """('ok' | 'raised' | 'hang', value)"""
+        try:
+            how, val = await vloop.vwait(guarded(hf.initiate_slc()))
+        except vloop.Hang:
+            r.bad(f'slc/hang{suffix}', f'{label}: initiate_slc pending at T_v; {detail()}')
+            return 'hang', None
+        await rg.quiesce()
+        return how, val
+
+    def ag_update(n_updates):
+        """indicator updates through the gateway's API; the ledger follows"""
+        for _ in range(n_updates):
+            j = rng.randrange(len(cur))
+            name, values, _c = cfg['ag_indicators'][j]
+            v = rng.choice(values)
+            ag.update_ag_indicator(hfp.AgIndicator(name), v)
+            cur[j] = v
+            r.ev('slcrep_ciev_updates')
+
+    # ---- first attempt ------------------------------------------------------------------------------
+    how, val = await attempt('first attempt', f'/first-attempt/{how_lost}' if k < len(seq) else '')
+    if how == 'hang':
+        r.evals()
+        return
+    if k < len(seq):
+        stem = seq[k]
+        r.ev(f'slcrep_lost_{stem}')
+        r.ev(f'slcrep_{how_lost}')
+        if how == 'ok' or tap['dropped'] is None or not tap['dropped'].startswith(stem):
+            # the procedure did not reach or did not need the command that was to be lost: nothing to retry
+            r.ev('slcrep_first_attempt_not_as_planned')
+            r.add_extra_list('slcrep_not_as_planned', f'{stem}: {how} dropped={tap["dropped"]!r}')
+        else:
+            r.ev('slcrep_first_attempts_failed')
+            r.ev(f'slcrep_first_attempt_raised_{type(val).__name__}')
+    elif how != 'ok':
+        r.bad('slc/raised/other', f'first attempt, nothing lost: initiate_slc raised {type(val).__name__}: {val}; {detail()}')
+        r.evals()
+        return
+    tap['drop'] = None
+    if rng.random() < 0.5:
+        ag_update(rng.randint(1, 3))       # the gateway's indicators move between the attempts
+        await rg.quiesce()
+    # ---- the set-up again, on the same objects --------------------------------------------------------
+    reruns = [first] + (['completed-slc'] if rng.random() < 0.6 else [])
+    for after in reruns:
+        suffix = f'/repeat/after-{after}'
+        r.ev('slcrep_retries_after_failed_attempt' if after == 'failed-attempt' else 'slcrep_reruns_after_completed_slc')
+        r.ev('oracle_evals')
+        how, val = await attempt(f'set-up run again after a {after}', suffix)
+        if how == 'hang':
+            r.evals()
+            return
+        if how == 'raised':
+            r.bad(f'slc/raised{suffix}', f'initiate_slc run again after a {after} raised {type(val).__name__}: {val}; {detail()}')
+            r.evals()
+            return
+        slc_agreement(r, cfg, hf, ag, list(cur), suffix, detail())
+    # ---- +CIEV after the repeated set-up ---------------------------------------------------------------
+    suffix = f'/repeat/after-{reruns[-1]}'
+    task = asyncio.create_task(hf.run())
+    await rg.quiesce()
+    ag_update(rng.randint(2, 5))
+    await rg.quiesce()
+    await asyncio.sleep(0.1)
+    await rg.quiesce()
+    r.ev('slcrep_agreement_checks')
+    r.ev('oracle_evals', 2)
+    names = [n for n, _v, _c in cfg['ag_indicators']]
+    hf_view = [(x.indicator.value, x.current_status) for x in hf.ag_indicators]
+    ag_view = [(x.indicator.value, x.current_status) for x in ag.ag_indicators]
+    want = list(zip(names, cur))
+    if hf_view != want or ag_view != want:
+        r.bad(f'slc/disagree/ag-indicator-values/after-ciev{suffix}',
+              f'after +CIEV updates sent through AgProtocol.update_ag_indicator: ledger {want}, AG holds {ag_view}, HF holds '
+              f'{hf_view}; {detail()}')
+    for n, v in want:
+        held = [x.current_status for x in hf.ag_indicators if x.indicator.value == n]
+        if held != [v]:
+            r.bad(f'slc/disagree/ag-indicator-by-name/after-ciev{suffix}',
+                  f'the HF holds {len(held)} entries for indicator {n!r} with values {held}, the AG one with value {v}; {detail()}')
+            break
+    hf.unsolicited_queue.put_nowait(None)
+    try:
+        await vloop.vwait(task, 30)
+    except vloop.Hang:
+        task.cancel()
+    for where, e in rg.exceptions:
+        r.bad('slc/exception-in-stack/repeat', f'{where}: {e}; {detail()}')
+    wire_and_counters(r, rg, [(cd, sd)], 'after repeated SLC')
+    r.sig('slcrep', repr(cfg), k, how_lost, tuple(reruns))
+    r.sched.add(rg.schedule_signature)
+    r.evals()
+    r.sample = {'kind': 'slcrep', 'cfg': cfg, 'sequence': seq, 'lost': None if k == len(seq) else [k + 1, seq[k], how_lost],
+                'reruns': reruns, 'indicator_ledger': cur, 'link': info}
 
 
 # =============================================================================
@@ -2076,7 +2751,7 @@ async def codec(case, r: R):
     await (codec_hf_vs_scripted_ag, codec_ag_vs_scripted_hf, codec_both_real)[mode](case, r, rng)
 
 
-KINDS = {'xfer': xfer, 'life': life, 'refuse': refuse, 'slc': slc, 'agraw': agraw, 'hfraw': hfraw, 'codec': codec}
+KINDS = {'xfer': xfer, 'life': life, 'refuse': refuse, 'srefuse': srefuse, 'slc': slc, 'slcrep': slcrep, 'agraw': agraw, 'hfraw': hfraw, 'codec': codec}
 
 
 async def run_case(case, r: R):
@@ -2099,7 +2774,11 @@ LEVEL_TEXT = ('Stream equality at every DLC sink, an independent RFCOMM wire che
               'refusal histories (DM-refused open_dlc once / repeatedly / between live DLCs and closes, overlapping open_dlc '
               'calls, repeated disconnect) each followed by further opens, two-way exchanges, the credit cross-check and one '
               'of three orderly teardowns, with both multiplexers required to be CONNECTED between operations and '
-              'DISCONNECTED after DISC; 3-7 HF commands after every SLC alternating refused and accepted ones; '
+              'DISCONNECTED after DISC; ~170 (quick) / ~840 (thorough) histories against a hand-played RFCOMM responder that '
+              'refuses at the PN or at the SABM stage (DM, DISC, late DM, late UA, UA then DISC), judged against the '
+              'responder\'s own ledger of open DLCIs, received octets and granted credits; ~180 (quick) / ~900 (thorough) '
+              'SLC set-ups run again on the same protocol objects after the k-th command or its answer was lost (every k) '
+              'and after a completed one, with the SLC oracle and +CIEV updates checked afterwards; 3-7 HF commands after every SLC alternating refused and accepted ones; '
               'initiate_slc against '
               'AgProtocol for all 64 settings of the six feature bits it branches on x boundary lists, with the negotiated '
               'values predicted from the configurations by the check; one-final-result-code monitor on the AG DLC during '
